@@ -138,6 +138,16 @@ DateDiffRounded(a, b, largest, smallest, inc, mode, since) ==
                         IN IF rr.kind # "ok" THEN ErrRange ELSE IF rr.outside THEN [kind |-> "any"] ELSE DurNew(ToDur(rr.dur, largest))
   IN IF since THEN NegOut(r) ELSE r
 
+\* PlainDateTime.until / since with rounding options (DifferencePlainDateTimeWithRounding), same scheme with full date-times
+DTDiffRounded(a, b, largest, smallest, inc, mode, since) ==
+  LET m == IF since THEN NegateMode(mode) ELSE mode
+      r == IF CmpDT(a, b) = 0 THEN Ok(ZeroDur)
+           ELSE LET diff == DiffDTRec(a, b, largest)
+                IN IF smallest = "nanosecond" /\ inc = 1 THEN DurNew(ToDur(diff, largest))
+                   ELSE LET rr == RoundRelative(diff, EpochNsOf(b), a, largest, inc, smallest, m)
+                        IN IF rr.kind # "ok" THEN ErrRange ELSE IF rr.outside THEN [kind |-> "any"] ELSE DurNew(ToDur(rr.dur, largest))
+  IN IF since THEN NegOut(r) ELSE r
+
 \* Duration.total(unit, relativeTo: rel) as an exact rational [n, d] (d > 0)
 TotalRel(rel, D, unit) ==
   LET tg == TargetOf(rel, D)
